@@ -11,7 +11,7 @@ CATCH_ALL = {"channels": ["all"], "cats": [], "svcs": []}
 def configurations(ck, tier):
     r1 = lib.tlc("MC_Honeytrap", timeout=600, constants={"Sim": "FALSE", "NFilters": "1"}, workers=8)
     lib.tlc_must_pass(r1, "Honeytrap composition (ExactlyAdmitted, OrderPreserved, Attributed, SilentIfUnrouted), one filter")
-    ck.add_tlc(r1, "Honeytrap: 5 planned connections x every single filter of 168 (7 channel lists x 8 category lists x 3 service lists), exhaustive")
+    ck.add_tlc(r1, "Honeytrap: 9 planned connections and datagrams (tcp and udp, routed and unrouted) x every single filter of 168 (7 channel lists x 8 category lists x 3 service lists), exhaustive")
     n = 12 if tier == "quick" else 300
     r2 = lib.tlc("MC_Honeytrap", timeout=600, constants={"Sim": "TRUE", "NFilters": "3"}, simulate=max(1, n // 4), depth=20,
                  tlc_seed=lib.seed(), workers=4)
